@@ -147,6 +147,9 @@ Proof.
   split; [discriminate|]. cbn [forallb]. rewrite (alpha_vis a H1). cbn [andb]. revert H2. apply forallb_impl. exact schemechar_vis.
 Qed.
 
+Lemma vis_lt128 h : forallb vis h = true -> forallb (fun x => x <? 128) h = true.
+Proof. apply forallb_impl. intros x. unfold vis. lia. Qed.
+
 Lemma digits_vis d : forallb is_digit d = true -> forallb vis d = true.
 Proof. apply forallb_impl. intros x. unfold is_digit, vis. lia. Qed.
 
@@ -233,8 +236,8 @@ Section NormalForm.
     assert (Hr0 : rest_from (map Good s) 0 = sch ++ 58 :: 47 :: 47 :: A ++ pn ++ q_tail oq ++ f_tail of).
     { rewrite rest_map_good. exact Hs. }
     pose proof (len_pos sch Sne) as Hls.
-    eapply (reaches_ends idna_raw c Hrep Hfail).
-    { apply (scheme_phase_mixed idna_raw c Hrep Hfail _ _ _ false false false _ Hr0 Ksch). }
+    eapply (reaches_ends idna_raw c Hrep Hfail (map Good s)).
+    { apply (scheme_phase_mixed idna_raw c Hrep Hfail (map Good s) sch _ false false false (empty_url s) Hr0 Ksch). }
     fold lsch.
     pose proof (rest_app _ 0%Z _ _ ltac:(blia) Hr0) as Hr1.
     set (p := (len sch - 1)%Z) in *. replace (0 + len sch)%Z with (p + 1)%Z in Hr1 by (unfold p; ring).
@@ -243,17 +246,17 @@ Section NormalForm.
     destruct (rest_uncons _ (p + 1 + 1)%Z _ _ ltac:(blia) Hr2) as [_ [Hr3 _]].
     destruct (rest_uncons _ (p + 1 + 1 + 1)%Z _ _ ltac:(blia) Hr3) as [_ [Hr4 _]].
     set (u0 := set_scheme (empty_url s) lsch).
-    eapply (reaches_ends idna_raw c Hrep Hfail).
+    eapply (reaches_ends idna_raw c Hrep Hfail (map Good s)).
     { eapply (reaches_step idna_raw c Hrep Hfail).
       - rewrite (step_scheme_colon idna_raw c Hrep Hfail _ p _ _ _ _ _ _ ltac:(blia) Hr1). rewrite K10, K11. reflexivity.
       - reflexivity. }
-    eapply (reaches_ends idna_raw c Hrep Hfail).
+    eapply (reaches_ends idna_raw c Hrep Hfail (map Good s)).
     { eapply (reaches_step idna_raw c Hrep Hfail);
         [apply (step_sas idna_raw c Hrep Hfail _ (p + 1)%Z _ _ _ _ _ _ ltac:(blia) Hr2)|reflexivity]. }
     destruct (auth_first user pass host (port_part op ++ pn ++ q_tail oq ++ f_tail of) K9 K8 K5 K7) as [x [l [E1 [E2 E3]]]].
     assert (Hr4' : rest_from (map Good s) (p + 1 + 1 + 1 + 1) = x :: l).
     { rewrite Hr4. unfold A. rewrite <- !app_assoc. exact E1. }
-    eapply (reaches_ends idna_raw c Hrep Hfail).
+    eapply (reaches_ends idna_raw c Hrep Hfail (map Good s)).
     { eapply (reaches_step idna_raw c Hrep Hfail);
         [apply (step_sais idna_raw c Hrep Hfail _ (p + 1 + 1 + 1)%Z _ _ _ _ _ _ _ ltac:(blia) Hr4' E2 E3)|reflexivity]. }
     replace (p + 1 + 1 + 1 + 1 - 1)%Z with (p + 1 + 1 + 1)%Z by ring. clear x l E1 E2 E3 Hr4'.
@@ -261,7 +264,7 @@ Section NormalForm.
     assert (Hr4c : rest_from (map Good s) (p + 1 + 1 + 1 + 1) = cred_part user pass ++ (host ++ port_part op ++ pn ++ q_tail oq ++ f_tail of)).
     { rewrite Hr4. unfold A. rewrite <- !app_assoc. reflexivity. }
     destruct (cred_phase idna_raw c Hrep Hfail _ (p + 1 + 1 + 1)%Z u0 user pass _ ltac:(blia) Hr4c eq_refl eq_refl K9 K8) as [pw Hcred].
-    eapply (reaches_ends idna_raw c Hrep Hfail); [exact Hcred|]. clear Hcred.
+    eapply (reaches_ends idna_raw c Hrep Hfail (map Good s)); [exact Hcred|]. clear Hcred.
     change (set_password (set_username u0 user) pass) with u1.
     set (P := (p + 1 + 1 + 1 + len (cred_part user pass))%Z).
     pose proof (len_nonneg (cred_part user pass)) as Hlc.
@@ -269,7 +272,7 @@ Section NormalForm.
     replace (p + 1 + 1 + 1 + 1 + len (cred_part user pass))%Z with (P + 1)%Z in Hr5 by (unfold P; ring).
     assert (Hsp1 : IsSpecialScheme c u1 = true) by exact K11.
     assert (Hsm : forallb (fun x => x <? 128) host = true).
-    { revert K6. apply forallb_impl. intros x. unfold vis. lia. }
+    { apply vis_lt128. exact K6. }
     assert (Hend : at_end (pn ++ q_tail oq ++ f_tail of) = true) by apply at_end_tail.
     set (a := negb (is_nil user) || negb (is_nil pass)).
     (* the host *)
@@ -278,7 +281,7 @@ Section NormalForm.
     2:{ apply (host_port_fail idna_raw c Hrep Hfail _ P a pw u1 host op _ u1' e (all_good_map s) ltac:(unfold P; blia) Hr5 Hend);
           try assumption; rewrite Hsp1; assumption. }
     cbn [keeps] in Hkeep. subst u1'.
-    eapply (reaches_ends idna_raw c Hrep Hfail).
+    eapply (reaches_ends idna_raw c Hrep Hfail (map Good s)).
     { apply (host_port_reach idna_raw c Hrep Hfail _ P a pw u1 host h' op _ (all_good_map s) ltac:(unfold P; blia) Hr5 Hend);
         try assumption; rewrite Hsp1; assumption. }
     apply (finishes_ends idna_raw c Hrep Hfail).
